@@ -352,6 +352,8 @@ def guard_clamp_ordered(ctx, s):
             lo, hi = c[3][1], c[3][2]
             if lo[0] == "const" and hi[0] == "const" and isinstance(lo[3], int) and isinstance(hi[3], int) and lo[3] <= hi[3]:
                 continue
+            if callee_is(lo, "Ord::min", "cmp::min") and callee_is(hi, "Ord::max", "cmp::max") and len(lo[3]) == 2 and len(hi[3]) == 2 and set(lo[3]) == set(hi[3]):
+                continue            # min(x, y) <= max(x, y) for any total order
             ok = False
             for cnd in p.conds:
                 e, v = cnd[0], cnd[1]
